@@ -9,7 +9,7 @@ from types import SimpleNamespace
 
 import core
 
-MAXDTS = [0.1, 0.05, 0.013, 1.0, 0.001, 0.25]
+MAXDTS = [0.1, 0.05, 0.013, 1.0, 0.001, 0.25, 10.0, 250.0]
 COMBOS = {0: "control+calibration", 1: "control only", 2: "calibration only", 3: "neither"}
 NCOMBO = 4
 
